@@ -137,7 +137,7 @@ CHECKS["C19"] = dict(
 )
 
 CHECKS["C01"] = dict(
-    technique="totality monitor: every phase under catch_unwind in an isolated worker with the event-tap monitors armed (logical step fuel, stall detection, position sync) and a counting allocator, in both build profiles; size and nesting-depth growth ladders; process aborts attributed through a BEGIN/result protocol; thorough: the same driver interpreted by Miri",
+    technique="totality monitor: every phase under catch_unwind in an isolated worker with the event-tap monitors armed (logical step fuel, stall detection, position sync) and a counting allocator, in both build profiles; size and nesting-depth growth ladders; process aborts attributed through a BEGIN/result protocol; thorough: the same driver interpreted by Miri (small batches) and the whole payload through an AddressSanitizer build of the driver",
     text="Inputs: every WXML/CSS literal of the repository's own tests, generated valid programs, systematic neighbourhoods of short seeds (every prefix, every single-character deletion, substitutions from an alphabet of hostile characters), an exhaustive numeric-literal grammar, dictionary mutants, every stylesheet option set (incl. ratio 0, negative, NaN, infinite), hostile template paths, and size ladders of adversarial families up to 16-64 KiB; each input runs add_tmpl, every emit API, both printers and the stylesheet transformer in both build profiles (debug assertions + overflow checks, and release). Verdict: returned normally, logical steps <= 2(n+64)^2, peak heap <= 30000(n+64)(d+2)+4 MiB, diagnostics <= 4(n+1), fitted growth exponents on ladders <= 2.3; a parser that ticks 100,000 times without advancing its cursor is a stall.",
     note="Trusted: the tap placement (every cursor primitive of the parser), the counting allocator, the depth filter (over-approximates; out-of-domain inputs are counted, not judged). CPU-limit / watchdog hits are re-run alone and otherwise inconclusive, never violations by themselves.",
     ref="2/C01", engine="gev",
